@@ -40,8 +40,9 @@ SPEC = dict(
           "of memory / cpu (count, percentage) / cpu set / threads with probability 1/3..2/5, values from small pools so "
           "that limits collide (memory 0, 640KiB, 640KiB+1, 1..8MiB; threads -1..16; count 0,1,2,4; percentage 0,25,50,100; "
           "cpu sets: prefixes 0..k (k up to 12 > NumCPU), random subsets of 0..7, duplicates, empty); some histories "
-          "concentrate on memory+threads or on cpu. Plus three fixed histories (the recorded finding; memory and thread "
-          "boundary cases with an unlimited middle group). After EVERY request the driver records accept/refuse and the "
+          "concentrate on memory+threads or on cpu. Plus six fixed histories (the recorded finding; the witness of the repaired "
+          "set-only-ancestor defect; a cpu set larger than NumCPU; a duplicate-entry cpu set; memory and thread boundary "
+          "cases with an unlimited middle group). After EVERY request the driver records accept/refuse and the "
           "whole forest read back from the exported Group fields; the model is compared request by request starting from the "
           "observed forest, and the fit invariants are recomputed on the observed forest. A history ends at the first "
           "request after which a fit is broken. Non-trivial = at least 2 accepted and 1 refused request and depth >= 2."),
@@ -52,7 +53,7 @@ SPEC = dict(
         "the driver's own Go diagnosis (which fit is broken, whether an effective cpu set changed) is used ONLY to map a monitor failure to its KNOWN_FINDINGS key; the verdict itself is Quota.monitor_fail evaluated in Coq",
     ],
     assumptions=[
-        "PARTIAL: proved for all histories: memory fit, thread fit, nesting of cpu sets, refused requests change nothing. The CPU fit is refuted (two witnesses, both confirmed on the real code in every run). Not proved: a guarded CPU theorem; the CPU fit is monitored on the implementation's observed trees only.",
+        "PARTIAL: proved for all histories: memory fit, thread fit, nesting of cpu sets, refused requests change nothing; and the CPU fit for all histories without percentage-only (count 0) cpu quotas (every requested cpu quota has count >= 1 and percentage >= 1). With percentage-only quotas the CPU fit is refuted (two witnesses, both confirmed on the real code in every run: KNOWN_FINDINGS keys cpuset-change-over-count0-group and cpu-percentage-only-sized-beyond-numcpu) and otherwise only monitored on the implementation's observed trees. The defect cpu-check-stops-at-cpuset-only-ancestor was repaired in /repo commit 731c638; its witness is a regression case of the driver (the last request must be refused) and is no longer keyed.",
         "group names are pairwise distinct (getQuotaAllocations keys its map by name; uniqueness is enforced by the callers in overlord/servicestate) and syntactically valid; journal quotas, snaps and services are not modelled",
         "Go int / quantity.Size arithmetic is modelled by unbounded integers (no overflow); cpu count and percentage are non-negative in the differential run",
         "UpdateQuotaLimits is exercised as exported, i.e. also with partial Resources values; overlord/servicestate always passes the merged resources",
